@@ -271,31 +271,38 @@ def eval_cases(pid, imports, cases_terms, case_type, corr, spec, shard_size=400,
         if n.startswith("Cases_%s_" % pid):
             os.remove(os.path.join(cdir, n))
     shards = [cases_terms[i:i + shard_size] for i in range(0, len(cases_terms), shard_size)] or [[]]
-    procs = []
-    for k, shard in enumerate(shards):
-        name = "Cases_%s_%d" % (pid, k)
-        src = [imports, "Import ListNotations.", extra_defs,
-               "Definition cases : list (%s) := [" % case_type,
-               ";\n".join(shard), "]."]
-        src.append("Definition RESULT_mism := Eval vm_compute in bad_indices (%s) 0 cases." % corr)
-        src.append("Definition RESULT_viol := Eval vm_compute in bad_indices (%s) 0 cases." % spec)
-        src.append("Print RESULT_mism.\nPrint RESULT_viol.")
-        with open(os.path.join(cdir, name + ".v"), "w") as f:
-            f.write("\n".join(src) + "\n")
-        procs.append((k, subprocess.Popen(
-            ["timeout", str(timeout), "coqc", "-Q", "theories", "Verif", "-w", "-notation-overridden", "cases/%s.v" % name],
-            cwd=COQ, stdout=subprocess.PIPE, stderr=subprocess.STDOUT)))
+    MAXPAR = int(os.environ.get("VERIF_COQ_PAR", "10"))      # bound on concurrent coqc processes (memory)
     mism, viol, log = [], [], []
-    for k, p in procs:
-        out = p.communicate()[0].decode("utf-8", "replace")
-        base = k * shard_size
-        m1 = RESULT_RE("RESULT_mism").search(out)
-        m2 = RESULT_RE("RESULT_viol").search(out)
-        if p.returncode != 0 or not m1 or not m2:
-            log.append("shard %d: coqc rc=%s\n%s" % (k, p.returncode, out[-3000:]))
-            return None, None, "\n".join(log)
-        mism += [base + int(x) for x in re.findall(r"\d+", m1.group(1))]
-        viol += [base + int(x) for x in re.findall(r"\d+", m2.group(1))]
+    for b0 in range(0, len(shards), MAXPAR):
+        procs = []
+        for k in range(b0, min(b0 + MAXPAR, len(shards))):
+            shard = shards[k]
+            name = "Cases_%s_%d" % (pid, k)
+            src = [imports, "Import ListNotations.", extra_defs,
+                   "Definition cases : list (%s) := [" % case_type,
+                   ";\n".join(shard), "]."]
+            src.append("Definition RESULT_mism := Eval vm_compute in bad_indices (%s) 0 cases." % corr)
+            src.append("Definition RESULT_viol := Eval vm_compute in bad_indices (%s) 0 cases." % spec)
+            src.append("Print RESULT_mism.\nPrint RESULT_viol.")
+            with open(os.path.join(cdir, name + ".v"), "w") as f:
+                f.write("\n".join(src) + "\n")
+            procs.append((k, subprocess.Popen(
+                ["timeout", str(timeout), "coqc", "-Q", "theories", "Verif", "-w", "-notation-overridden", "cases/%s.v" % name],
+                cwd=COQ, stdout=subprocess.PIPE, stderr=subprocess.STDOUT)))
+        for k, p in procs:
+            out = p.communicate()[0].decode("utf-8", "replace")
+            base = k * shard_size
+            m1 = RESULT_RE("RESULT_mism").search(out)
+            m2 = RESULT_RE("RESULT_viol").search(out)
+            if p.returncode != 0 or not m1 or not m2:
+                log.append("shard %d: coqc rc=%s\n%s" % (k, p.returncode, out[-3000:]))
+                return None, None, "\n".join(log)
+            mism += [base + int(x) for x in re.findall(r"\d+", m1.group(1))]
+            viol += [base + int(x) for x in re.findall(r"\d+", m2.group(1))]
+        # compiled shard outputs are scratch: free the disk before the next batch
+        for n in os.listdir(cdir):
+            if n.startswith("Cases_%s_" % pid) and not n.endswith(".v"):
+                os.remove(os.path.join(cdir, n))
     # remove compiled case files (they are per-run scratch)
     for n in os.listdir(cdir):
         if n.startswith("Cases_%s_" % pid) and not n.endswith(".v"):
